@@ -633,8 +633,10 @@ def run_results_case(c, wd):
     except Exception as ex:
         out.append((enc_exc_sig(ex), f"save_to_file raised {type(ex).__name__}: {ex}"))
         return out
-    if fn != expname or not os.path.exists(fn):
+    if fn != expname:
         out.append(("fname", f"save_to_file returned {os.path.basename(fn)!r}, expected {c['fname']!r}"))
+    elif not os.path.exists(fn):
+        out.append(("fname", f"ReturnedNameIsTheFile: save_to_file returned {os.path.basename(fn)!r} but no such file was written"))
     new = sorted(set(os.listdir(wd)) - before)
     if new != [os.path.basename(fn)]:  # ReturnedNameIsTheFile: exactly the returned name appeared
         out.append(("fname", f"ReturnedNameIsTheFile: save_to_file returned {os.path.basename(fn)!r} but the files that appeared are {new}"))
@@ -664,6 +666,12 @@ def run_results_case(c, wd):
         return out
     eq_both(sr, o3, "second file round trip vs x", out, c["eqdef"])
     cmp_results_fields(o3, c["back"] if c["json"] else S, "loaded twice", out, not c["json"])
+    if not c["json"]:
+        # what was unpickled writes the same JSON as the original
+        try:
+            cmp_tree(json.loads(o3.to_json()), c["tree"], "json-of-unpickled", out)
+        except Exception as ex:
+            out.append((enc_exc_sig(ex), f"to_json of the unpickled object raised {type(ex).__name__}: {ex}"))
     if sorted(set(os.listdir(wd)) - before) != [os.path.basename(fn)]:
         out.append(("fname", f"ReturnedNameIsTheFile: after the second save the directory holds {sorted(os.listdir(wd))}"))
     n0 = len(out)
@@ -671,12 +679,6 @@ def run_results_case(c, wd):
     cmp_results_fields(o2, c["back"] if c["json"] else S, "EarlierResultsUnchanged: first loaded object after the second round trip",
                        out, not c["json"])
     out[n0:] = [("frame", w) for _, w in out[n0:]]
-    if not c["json"]:
-        # what was unpickled writes the same JSON as the original
-        try:
-            cmp_tree(json.loads(o3.to_json()), c["tree"], "json-of-unpickled", out)
-        except Exception as ex:
-            out.append((enc_exc_sig(ex), f"to_json of the unpickled object raised {type(ex).__name__}: {ex}"))
     # --- as a string, twice
     json_cycle(sr, SimulationResults, c, out, lambda o, w: cmp_results_fields(o, c["back"], w, out, False))
     # --- RejectedSaveChangesNothing: saves that raise leave the object and the directory alone
@@ -938,11 +940,9 @@ def run(ctx):
         cfg, defs = model(fam, tier, p, n)
         return tlc.run(MODULE, cfg, defs=defs, workers=1, timeout=1500, env=JVM_ENV)
 
-    def cov_run(fam):
-        # per-action coverage on a thin slice (coverage instrumentation is 4x slower than plain emission)
-        cfg, defs = model(fam, tier, 0, 40, emit=False)
-        return tlc.run(MODULE, cfg, defs=defs, coverage=True, timeout=900, env=JVM_ENV)
-
+    # Per-action coverage: every emitted case names its action (kind <-> action is one to one), so the firing counts
+    # are taken from the emission itself.  TLC's -coverage instrumentation is not used: on this module it is 4x
+    # slower on the emission runs and runs out of memory even on a thin slice once the pools grew.
     def dev_run(item):
         flag, (fam, law), is_dev = item
         cfg, defs = model(fam, tier if fam != "value" else "quick", dev=[flag] if is_dev else (),
@@ -959,11 +959,8 @@ def run(ctx):
         with ThreadPoolExecutor(int(os.environ.get("VERIF_PROCS", "0") or 0) or 12) as ex:  # the engine caps JVMs machine-wide
             efut = [ex.submit(emit_run, j) for j in jobs]
             dfut = [ex.submit(dev_run, it) for it in devitems]
-            cfut = [ex.submit(cov_run, fam) for fam in FAMILIES]
             tfut = ex.submit(c17_trace.validate, events)
             eruns = [f.result() for f in efut]
-            for fam, f in zip(FAMILIES, cfut):
-                ctx.account(f.result(), MODULE, f"{fam} coverage slice")
             druns = [f.result() for f in dfut]
             tres = tfut.result()
         cases = []
